@@ -169,8 +169,29 @@ def gen_function(r, i):
         attr = "short_name = true"
         lit = name
     elif mode == 2:
-        attr = 'properties = { "a": "{a}", "b": "b={b:?}", "lit": "{{%d}}" }' % i
-        props = [("a", 'format!("{a}")'), ("b", 'format!("b={b:?}")'), ("lit", '"{%d}".to_string()' % i)]
+        # property values from a small grammar of format-string pieces: text, escaped braces,
+        # placeholders over the arguments; the expected value is format! of the same literal
+        pieces_txt = ["", "x", "v %d" % i, "é", " ", "=", "a-b", "100%", "#"]
+        pieces_esc = ["{{", "}}", "{{}}", "}}{{", "{{{{", "}}}}"]
+        pieces_ph = ["{a}", "{b}", "{s}", "{b:?}", "{s:?}", "{a:>5}", "{a:#x}", "{b:+}", "{a:04}"]
+        kv = []
+        for j in range(r.randint(1, 4)):
+            shape = r.randint(0, 5)
+            n = r.randint(1, 4)
+            if shape == 0:
+                segs = [r.choice(pieces_txt) for _ in range(n)]
+            elif shape == 1:
+                segs = [r.choice(pieces_txt + pieces_esc) for _ in range(n)]
+            elif shape == 2:
+                segs = [r.choice(["}}", "}} }}", "a }} b", "}}}}"])]
+            elif shape == 3:
+                segs = [r.choice(["{{", "{{ {{", "a {{ b", "{{{{"])]
+            else:
+                segs = [r.choice(pieces_txt + pieces_esc + pieces_ph) for _ in range(n)]
+            val = "".join(segs)
+            kv.append(("k%d_%d" % (i, j), val))
+        attr = "properties = { %s }" % ", ".join("%s: %s" % (json.dumps(k), json.dumps(v, ensure_ascii=False)) for k, v in kv)
+        props = [(k, "format!(%s)" % json.dumps(v, ensure_ascii=False)) for k, v in kv]
     eop = False
     if is_async and mode == 3:
         attr = 'name = "p-%d", enter_on_poll = true' % i
